@@ -53,3 +53,27 @@ META["C12"] = dict(
     level_text="Exploration with an exhaustive sub-space: every sequence of <=4 calls (8.4e5 programs) and rapid sequences of up to 30 calls over an owned writer and every handle derived from it, including stale copies and detached variables. After every call: no panic, the first error is what every reaching call and Err() report, a root Build that returns nil yields bytes that parse completely and whose nested data is readable; at the end Reset followed by a known-legal program must give the reference bytes and Free (twice) must be safe.",
     level_note="Asserts only what the statement claims (no expectation about which misuse is detected). Detached-handle reading decision documented in DESIGN.md C12.",
 )
+
+META["C16"] = dict(
+    engine="codec",
+    design_ref="DESIGN.md 3/C16",
+    technique="property-based testing of a two-version relation: rapid-generated field set A and edit sequence (add/remove/rename/reorder) giving reader view A'; read-under-A' and merge-through-A'-writer oracles over the dynamic tag API",
+    level_text="Exploration (dynamic layer): for generated messages and edit sequences, fields common to both versions read back unchanged, fields only in the data are ignored, fields only in the reader read as the declared kind's zero with presence false, and Copy/Merge through a writer that pre-writes A'-only and overriding fields preserves every other field byte-for-byte (also across the compact/big table switch when an added tag exceeds 255).",
+    level_note="The generated-code layer (two compiled schema versions) belongs to the lang engine and is added there; until then this check covers the wire-level semantics that generated accessors delegate to.",
+)
+
+META["C17"] = dict(
+    engine="codec",
+    design_ref="DESIGN.md 3/C17",
+    technique="property-based testing with the runtime allocation counter as oracle: testing.AllocsPerRun over rapid-generated message shapes (read walk, pooled write, owned-writer+Reset write), GC disabled during measurement",
+    level_text="Exploration: per generated shape (field counts to 300, depth to 22, big tables, 64 KiB payloads) the read walk (ParseMessage + every typed accessor, Field/FieldAt/TagAt/FieldRaw, List.Get, typed list wrappers, nested messages, struct members) and both steady-state write paths must report exactly 0 allocations per run; loops contain only library calls and preallocated inputs, and each write is also compared with the reference bytes so that a vacuous loop cannot pass.",
+    level_note="Allocation behaviour is a property of compiler+code; measured with go1.24.0 as used by the repository. Error paths and documented-to-allocate accessors are excluded.",
+)
+
+META["C18"] = dict(
+    engine="codec",
+    design_ref="DESIGN.md 3/C18",
+    technique="property-based differential testing: rapid-generated job sets run concurrently on 2..32 goroutines vs. their sequential result; thorough tier under the Go race detector with reports attributed by stack",
+    level_text="Exploration: concurrent encode/decode jobs through every pooled path (auto-released writers, pooled writers that fail midway or are abandoned, owned writers failing then freed) must produce exactly the bytes they produce alone and read back correctly; the thorough tier rebuilds with -race and treats any report with a frame inside the module as a violation.",
+    level_note="Interleavings are sampled by the Go scheduler. mpx/rpc pools are covered by the net part of this check when built.",
+)
